@@ -160,7 +160,9 @@ def run(ctx):
         for k, n in sorted(knownseen.items()):
             res["known"].append({"id": k, "what": "seen in the race run (%d cases)" % n})
         codes = {"1": "a result differs from the sequential oracle", "2": "shared input bytes were modified", "3": "a descriptor dump changed",
-                 "4": "a result handed out earlier changed after later calls (retention)", "5": "calls after failing calls deviate"}
+                 "4": "a result handed out earlier changed after later calls (retention)", "5": "calls after failing calls deviate",
+                 "6": "the control of the pool-miss scenario deviates", "7": "an operation run alone twice gave two different results",
+                 "8": "a reused HTTPRequest wrapper does not answer like a fresh one for the second request"}
         for kk, (c, v) in sorted(badseen.items()):
             code = kk.split(":")[1]
             detail = [l for l in out.splitlines() if l.startswith("C12-MISMATCH")][:6]
